@@ -23,8 +23,6 @@ def binsAt (R ri : Rat) (n : Nat) (isCenterPixel : Bool) (r : Rat) : List Rat :=
   (List.range n).map fun k =>
     if patched ri isCenterPixel r && k == 0 then Gen.patch_value ri else binVal R ri n k r
 
-def lsum (l : List Rat) : Rat := l.foldl (· + ·) 0
-
 def binSum (R ri : Rat) (n : Nat) (isCenterPixel : Bool) (r : Rat) : Rat :=
   lsum (binsAt R ri n isCenterPixel r)
 
